@@ -543,7 +543,14 @@ func (e *edEnv) tamper(k edKey, h hcfg, m msgCase, sig []byte, other edKey, allB
 		if len(m.m) > 0 {
 			e.decide("msg-truncated", k.pk, sig, m.m[:len(m.m)-1], h)
 		}
-	} else if len(m.m)%h.block == 0 { // MiMC only takes whole elements (or one short value); other lengths belong to C14
+	}
+	if h.block != 0 && len(m.m)%h.block == 0 {
+		// the signed message followed by something the hash refuses (a non-canonical element: absorbed up to there; one
+		// more byte: nothing absorbed): the hash of that message does not exist, the signature of M is not one of M'
+		e.decide("msg-extended-by-refused-element", k.pk, sig, append(append([]byte(nil), m.m...), bytes.Repeat([]byte{0xff}, h.block)...), h)
+		e.decide("msg-extended-by-one-byte", k.pk, sig, append(append([]byte(nil), m.m...), 0x01), h)
+	}
+	if h.block != 0 && len(m.m)%h.block == 0 { // MiMC only takes whole elements (or one short value); other lengths belong to C14
 		e.decide("msg-extended-by-zero-element", k.pk, sig, append(append([]byte(nil), m.m...), make([]byte, h.block)...), h)
 		if len(m.m) >= h.block {
 			e.decide("msg-truncated-by-one-element", k.pk, sig, m.m[:len(m.m)-h.block], h)
